@@ -8,7 +8,7 @@
    sorting_blocks.py / library.py / writer.py (as transcribed in Model/HeapMw.v) leaves every pre-existing object
    untouched and returns a library from which no pre-existing object is reachable. *)
 From Coq Require Import List ZArith Bool.
-From BP Require Import Model.Heap Model.HeapMw Spec.C07 Proofs.HeapProofs.
+From BP Require Import Model.Heap Model.HeapMw Model.HeapBodies Spec.C07 Proofs.HeapProofs Proofs.HeapBodiesProofs.
 Import ListNotations.
 Local Open Scope Z_scope.
 
@@ -61,6 +61,47 @@ Print Assumptions C07_write_string.
 Theorem C07_probe_footprints : forall n c kp kdup, n <> 7 -> footprint_ok (probe_body n c kp kdup).
 Proof. exact probe_footprints. Qed.
 Print Assumptions C07_probe_footprints.
+
+(* The transform_entry / transform_string bodies of EVERY shipped BlockMiddleware (Model/HeapBodies.v: RemoveEnclosing,
+   AddEnclosing, the three Month*, NormalizeFieldKeys, SortFieldsAlphabetically / SortFieldsCustom, SeparateCoAuthors,
+   MergeCoAuthors, SplitNameParts, MergeNameParts, LatexEncoding / LatexDecoding) stay within their footprint - for EVERY
+   value of the harness-supplied string tables (no hypothesis on them: a table can only decide which atoms are written
+   and which branch is taken, never which objects are touched). *)
+Theorem C07_shipped_footprints : forall s, footprint_ok (shipped_body s).
+Proof. exact shipped_footprints. Qed.
+Print Assumptions C07_shipped_footprints.
+
+(* hence, without a testing gap at the level of the heap model: every shipped block middleware in copy mode ... *)
+Theorem C07_shipped_copy_mode : forall DC, dc_contract DC -> forall s h lib h' lib', wf_heap h -> In lib (dom h) ->
+  transform_block_mw DC false (shipped_body s) h lib = Some (h', lib') -> no_alias h h' lib'.
+Proof. exact (fun DC C s h lib h' lib' => copy_mode_ok DC C (shipped_body s) h lib h' lib' (shipped_footprints s)). Qed.
+Print Assumptions C07_shipped_copy_mode.
+
+(* ... every stack (any positive length) of shipped block middlewares, Resolve, SortBlocks, LibraryMiddleware in copy mode *)
+Definition shipped_mw (m : mw) : Prop :=
+  match m with
+  | MwBlock i bd => i = false /\ exists s, bd = shipped_body s
+  | MwLibrary i => i = false
+  | MwResolve i _ _ => i = false
+  | MwSort _ => True
+  end.
+Theorem C07_shipped_stack : forall DC, dc_contract DC -> forall ms h lib h' lib',
+  Forall shipped_mw ms -> ms <> [] -> wf_heap h -> In lib (dom h) ->
+  run_stack DC ms h lib = Some (h', lib') -> no_alias h h' lib'.
+Proof. exact shipped_stack_ok. Qed.
+Print Assumptions C07_shipped_stack.
+
+(* ... and write_string with the REAL default stack [AddEnclosing(copy mode)], for every enclosing table *)
+Theorem C07_write_string_default : forall DC, dc_contract DC -> forall kmeta tbl at_auto at_col h lib fmt h',
+  wf_heap h -> In lib (dom h) -> In fmt (dom h) ->
+  write_string_mw DC (shipped_body (SAddEnclosing kmeta tbl)) at_auto at_col h lib fmt = Some h' ->
+  wf_heap h' /\ input_untouched h h'
+  /\ (forall p, reach h' lib p <-> reach h lib p) /\ (forall p, reach h' fmt p <-> reach h fmt p).
+Proof.
+  exact (fun DC C k t a1 a2 h lib fmt h' =>
+           write_string_ok DC C (shipped_body (SAddEnclosing k t)) a1 a2 h lib fmt h' (shipped_footprints (SAddEnclosing k t))).
+Qed.
+Print Assumptions C07_write_string_default.
 
 (* The executable copy used to RUN the model (fuelled, memoised graph copy; cycles and sharing handled as in copy.py)
    satisfies the contract conclusions on EVERY well-formed heap on which it completes (flag true: the fuel did not run
@@ -128,6 +169,16 @@ Proof. vm_compute. repeat split. Qed.
 (* a body outside footprint_ok (it stores the library it was given) does alias, even in copy mode *)
 Example C07_ex_leak :
   no_alias_b ex_heap (transform_block_mw deepcopy_exec false (probe_leak_library 9) ex_heap 1) = Some (true, false).
+Proof. vm_compute. repeat split. Qed.
+
+(* shipped bodies on the example heap: NormalizeFieldKeys (key atom 54 -> 540: field.key written, entry.fields a new list)
+   and SplitNameParts failing on the value (a new MiddlewareErrorBlock referencing the entry): copy mode untouched and
+   disjoint, in-place mode neither *)
+Example C07_ex_shipped :
+  no_alias_b ex_heap (transform_block_mw deepcopy_exec false (shipped_body (SNormalizeFieldKeys [(54, 540)])) ex_heap 1) = Some (true, true)
+  /\ no_alias_b ex_heap (transform_block_mw deepcopy_exec true (shipped_body (SNormalizeFieldKeys [(54, 540)])) ex_heap 1) = Some (false, false)
+  /\ no_alias_b ex_heap (transform_block_mw deepcopy_exec false (shipped_body (SSortFields [(54, 0%nat)] 1 9 (MVList [54]))) ex_heap 1) = Some (true, true)
+  /\ no_alias_b ex_heap (transform_block_mw deepcopy_exec true (shipped_body (SSortFields [(54, 0%nat)] 1 9 (MVList [54]))) ex_heap 1) = Some (false, false).
 Proof. vm_compute. repeat split. Qed.
 
 (* write_string: format with 'auto' (atom 7): the caller's format object 9 is untouched *)
